@@ -2,8 +2,8 @@
 from corr import corr_ghost
 import implsearch as IS
 
-MODULES = ["PyFV.Props.C03", "PyFV.Props.GenEqBC"]
-TRANSLATORS = {"T-bc": "python3 harness/translate/tbc.py lean/PyFV/Gen/BCGen.lean"}
+MODULES = ["PyFV.Props.C03", "PyFV.Props.GenEqBC", "PyFV.Props.GenEqObs", "PyFV.Props.GenEqBCUtil"]
+TRANSLATORS = {"T-bc": "python3 harness/translate/tbc.py lean/PyFV/Gen/BCGen.lean", "T-obs": "python3 harness/translate/tobs.py lean/PyFV/Gen/ObsGen.lean", "T-bcu": "python3 harness/translate/tbcu.py lean/PyFV/Gen/BCUtilGen.lean"}
 
 
 def corr(rng, tier):
